@@ -74,9 +74,10 @@ class ParentEnv:
     """Abstract runtime satisfying Inv: get(p) Ok <=> try_get(p) Some (same value); roots = {k | try_get([k]) is Some};
     empty path -> missing.  Deeper paths resolve nondeterministically (one Bool per path), only below a root that resolves."""
 
-    def __init__(self, roots, tag='P'):
+    def __init__(self, roots, tag='P', index_mode='token'):
         self.roots = frozenset(roots); self.tag = tag
         self.has = {}
+        self.index_mode = index_mode   # 'token': get_index returns an opaque token; 'symbolic': an optional symbolic integer counter
 
     def has_var(self, keys):
         if keys not in self.has:
@@ -118,6 +119,16 @@ class ParentEnv:
         if m == 'get_index':
             k = st.deref_all(args[1]).concrete()
             log_call(st, self.tag, (m, k))
+            if self.index_mode == 'symbolic':
+                present = z3.Bool(f'{self.tag}_idx_{k}_present'); v = z3.BitVec(f'{self.tag}_idx_{k}', 64)
+                def gi():
+                    for s2, pr in ctx.ex.fork_bool(st, present):
+                        if pr:
+                            s2.assume(z3.And(v > -(1 << 62), v < (1 << 62)))
+                            yield s2, 'ret', Some(Adt('ValueCow', 'Owned', [value_scalar(scalar_int(Int(v, 'i64')))]))
+                        else:
+                            yield s2, 'ret', NONE
+                return gi()
             return ret(st, Some(Adt('ValueCow', 'Owned', [Opaque((self.tag + 'IDX', k))])))
         if m == 'registers':
             log_call(st, self.tag, ('registers',))
@@ -319,6 +330,12 @@ def interrupt_set(st, what, owner='P'):
     st.store(r, Adt('InterruptRegister', None, [NONE if what is None else Some(Adt('Interrupt', what, []))], ['interrupt']))
 
 
+REGISTER_DEFAULTS = {
+    'CycleRegister': lambda: Adt('CycleRegister', None, [MapV((), (), 'HashMap')], ['cycles']),
+    'ChangedRegister': lambda: Adt('ChangedRegister', None, [NONE], ['last_rendered']),
+}
+
+
 def registers_models():
     """Registers::get_mut::<T>() -> RefMut<T>: one place per (registers object, T); borrow-tracked like a RefCell"""
     from mirsym.models.core import panic as _panic
@@ -332,7 +349,9 @@ def registers_models():
         else:
             key = f'reg:{owner}:{T}'
             if key not in st.env:
-                raise Unsupported(f'register {T} not provided by the obligation')
+                if T not in REGISTER_DEFAULTS:
+                    raise Unsupported(f'register {T} not provided by the obligation')
+                st.env[key] = st.alloc(REGISTER_DEFAULTS[T]())
             place = Ref(st.env[key], (), True)
         bk = ('borrow', place.alloc, place.path)
         readers, writer = st.env.get(bk, (0, False))
@@ -418,6 +437,17 @@ class ChildEnv:
                     if intr: interrupt_set(s2, intr, self.owner)
                     yield s2, 'ret', (Ok(UNIT) if res == 'ok' else Err(Adt('LiquidError', None, [Opaque(('msg', f'child {self.name} failed'))])))
             w = st.deref_all(args[1])
+            if self.max_writes and isinstance(w, VecV):
+                # private buffer (capture / ifchanged): the child appends an opaque chunk, never fails
+                wv = z3.Int(f'child_{self.name}_{nth}_writes')
+                bref = args[1]
+                while isinstance(st.deref(bref), Ref): bref = st.deref(bref)
+                for s1, does in ex.fork_bool(st, wv == 1):
+                    if does:
+                        b = s1.deref(bref)
+                        s1.store(bref, VecV(b.items + (Opaque(('chunk', self.name, nth)),), b.ty))
+                    yield from after_writes(s1, True)
+                return
             if self.max_writes and isinstance(w, Abs) and isinstance(w.data, SinkEnv):
                 wv = z3.Int(f'child_{self.name}_{nth}_writes')
                 for s1, does in ex.fork_bool(st, wv == 1):
